@@ -34,22 +34,27 @@ def _ty_setlike(ty):
     return bool(ORDERED_SET_RE.match(ty))
 
 
-def _classify_iter(fn, start_local):
-    """Follow an iterator value forward; returns (class, detail)."""
+def _classify_iter(fn, start_local, fx=None, elem_kind="whole"):
+    """Follow an iterator value forward; returns (class, detail).
+    elem_kind: 'entry' when the elements are the (key, value) pairs of a map (the key alone identifies an element),
+    'whole' otherwise; an element-transforming adapter on the way turns 'entry' into 'whole'."""
     uses = fn.uses()
     seen = set()
     work = [start_local]
     verdicts = []
+    kinds = {start_local: elem_kind}
     while work:
         l = work.pop()
         if l in seen:
             continue
         seen.add(l)
+        kind_here = kinds.get(l, "whole")
         for u in uses.get(l, []):
             if u["kind"] == "rv":
                 s = u["stmt"]
                 if s["rv"]["k"] in ("ref", "use", "cast", "rawptr"):
                     work.append(s["lhs"]["l"])
+                    kinds.setdefault(s["lhs"]["l"], kind_here)
                 elif s["rv"]["k"] == "discr":
                     pass
                 else:
@@ -62,6 +67,7 @@ def _classify_iter(fn, start_local):
                 if tr in ITER_TRAITS or (t.get("callee") or "").startswith("core::iter::"):
                     if name in ADAPTERS:
                         work.append(dest)
+                        kinds.setdefault(dest, kind_here if name in ("filter", "inspect", "by_ref", "into_iter", "peekable", "fuse", "chain") else "whole")
                     elif name in REDUCERS_OK:
                         verdicts.append(("REDUCER", name))
                     elif name in ("collect", "from_iter"):
@@ -69,8 +75,14 @@ def _classify_iter(fn, start_local):
                         if _ty_setlike(dty):
                             verdicts.append(("SET_SINK", "collect into " + dty.split("<")[0]))
                         elif "alloc::vec::Vec" in (fn.local_adt(dest) or "") or dty.startswith("std::vec::Vec"):
-                            if _vec_sorted_first(fn, dest):
-                                verdicts.append(("SORTED_SINK", "collected into a Vec that is sorted before any other use"))
+                            sorts = _vec_sorted_first(fn, dest)
+                            if sorts:
+                                why = [w for w in (_sort_total(fx, fn, st, kind_here) for st in sorts) if w]
+                                if why:
+                                    verdicts.append(("ORDER_SENSITIVE", "collected into a Vec sorted with a key that does not identify the element, so "
+                                                     "ties keep hash order: %s" % why[0]))
+                                else:
+                                    verdicts.append(("SORTED_SINK", "collected into a Vec that is sorted by an identifying key before any other use"))
                             else:
                                 verdicts.append(("ORDER_SENSITIVE", "collected into a Vec that is not sorted first (line %d)" % t["sp"]["line"]))
                         else:
@@ -89,6 +101,7 @@ def _classify_iter(fn, start_local):
                         verdicts.append(("ORDER_SENSITIVE", "extend of %s at line %d" % (sadt, t["sp"]["line"])))
                 elif is_passthrough(t):
                     work.append(dest)
+                    kinds.setdefault(dest, kind_here)
                 elif name in ("drop", "drop_in_place"):
                     pass
                 else:
@@ -105,6 +118,7 @@ def _vec_sorted_first(fn, vec_local):
     alias = set()
     work = [vec_local]
     sort_blocks = []
+    sort_terms = []
     other_blocks = []
     while work:
         l = work.pop()
@@ -121,14 +135,107 @@ def _vec_sorted_first(fn, vec_local):
                     work.append(t["dest"]["l"])
                 elif n and n.startswith("sort"):
                     sort_blocks.append(u["bi"])
+                    sort_terms.append(t)
                 else:
                     other_blocks.append(u["bi"])
     if not sort_blocks:
-        return False
+        return []
     for ob in other_blocks:
         if not any(fn.dominates(sb, ob) and sb != ob for sb in sort_blocks):
-            return False
-    return True
+            return []
+    return sort_terms
+
+
+KEY_PASSTHROUGH = {"clone", "to_owned", "to_string", "as_str", "as_ref", "borrow", "deref", "as_slice", "as_bytes", "into", "from", "as_deref"}
+
+
+def _access_paths(f):
+    """local -> (param, projection fields) for locals that are an untransformed view of (a part of) a parameter"""
+    argc = f["argc"]
+    paths = {i: (i, ()) for i in range(1, argc + 1)}
+    changed = True
+    defs = {}
+    for b in f["blocks"]:
+        for st in b["stmts"]:
+            if st["k"] == "assign" and not st["lhs"]["p"]:
+                defs.setdefault(st["lhs"]["l"], []).append(("stmt", st))
+        t = b["term"]
+        if t and t["k"] == "call" and t.get("dest") and not t["dest"]["p"]:
+            defs.setdefault(t["dest"]["l"], []).append(("call", t))
+    while changed:
+        changed = False
+        for l, ds in defs.items():
+            if l in paths or len(ds) != 1:
+                continue
+            kind, d = ds[0]
+            pl = None
+            if kind == "stmt" and d["rv"]["k"] in ("ref", "use", "rawptr", "cast"):
+                pl = d["rv"].get("pl") or (d["rv"].get("op") or {}).get("pl")
+            elif kind == "call" and d.get("callee_name") in KEY_PASSTHROUGH and d["args"]:
+                a = d["args"][0]
+                pl = a.get("pl")
+            if not pl or pl["l"] not in paths:
+                continue
+            base = paths[pl["l"]]
+            if any(not (x == "*" or (isinstance(x, dict) and "f" in x)) for x in pl["p"]):
+                continue
+            proj = tuple(str(x["f"]) for x in pl["p"] if isinstance(x, dict))
+            paths[l] = (base[0], base[1] + proj)
+            changed = True
+    return paths
+
+
+def _sort_total(fx, fn, t, elem_kind):
+    """None when the sort's order identifies every element (so the result does not depend on the incoming order);
+    otherwise a description of why ties are possible"""
+    name = t.get("callee_name")
+    if name in ("sort", "sort_unstable"):
+        return None
+    ok_proj = {()} | ({("0",)} if elem_kind == "entry" else set())
+    if len(t["args"]) < 2 or fx is None:
+        return "%s with an unanalysable comparator" % name
+    cl = op_root(t["args"][1])
+    path = None
+    for b in fn.f["blocks"]:
+        for st in b["stmts"]:
+            if st["k"] == "assign" and st["lhs"]["l"] == cl and st["rv"].get("agg") == "closure":
+                path = st["rv"]["closure"]
+    bodies = [c for c in (fx.by_path.get(path) or []) if "{promoted" not in c["key"]] if path else []
+    if not bodies:
+        return "%s with a comparator that is not a local closure" % name
+    body = bodies[0]
+    ap = _access_paths(body)
+    line = t["sp"]["line"]
+    if name in ("sort_by", "sort_unstable_by"):
+        for b in body["blocks"]:
+            c = b["term"]
+            if c and c["k"] == "call" and c.get("callee_name") in ("cmp", "partial_cmp") and len(c["args"]) == 2:
+                pa = ap.get(op_root(c["args"][0]))
+                pb = ap.get(op_root(c["args"][1]))
+                if pa and pb and {pa[0], pb[0]} == {2, 3} and pa[1] == pb[1] and pa[1] in ok_proj:
+                    return None
+        return "%s at line %d never compares the %s of the two elements" % (name, line, "keys (or whole elements)" if elem_kind == "entry" else "whole elements")
+    if name in ("sort_by_key", "sort_by_cached_key", "sort_unstable_by_key"):
+        # the key returned by the closure must be (or contain, as a tuple component) the untransformed element / map key
+        rets = set()
+        for b in body["blocks"]:
+            for st in b["stmts"]:
+                if st["k"] == "assign" and st["lhs"]["l"] == 0 and not st["lhs"]["p"]:
+                    rv = st["rv"]
+                    if rv["k"] == "agg" and rv.get("agg") in ("tuple", "Tuple"):
+                        for o in rv["ops"]:
+                            rets.add(op_root(o))
+                    elif rv["k"] in ("use", "ref"):
+                        rets.add(op_root(rv.get("op") or rv))
+            c = b["term"]
+            if c and c["k"] == "call" and c.get("dest") and c["dest"]["l"] == 0 and c.get("callee_name") in KEY_PASSTHROUGH and c["args"]:
+                rets.add(op_root(c["args"][0]))
+        for r in rets:
+            pa = ap.get(r)
+            if pa and pa[0] == 2 and pa[1] in ok_proj:
+                return None
+        return "%s at line %d: the key is not the %s itself" % (name, line, "map key (or whole element)" if elem_kind == "entry" else "whole element")
+    return "unclassified sort `%s`" % name
 
 
 def _accumulates(fn):
@@ -217,7 +324,9 @@ def rule_hash(ctx, fx=None, table=None):
         if name == "retain":
             res.inst(ikey, file, line, "ok", "retain: closure result per element, set semantics")
             continue
-        verdicts = _classify_iter(fn, t["dest"]["l"])
+        sadt0 = t.get("callee_self_adt") or ""
+        elem_kind = "entry" if sadt0.endswith("HashMap") and name in ("iter", "iter_mut", "into_iter", "drain") else "whole"
+        verdicts = _classify_iter(fn, t["dest"]["l"], fx, elem_kind)
         bad = [v for v in verdicts if v[0] in ("ORDER_SENSITIVE", "ESCAPE")]
         loops = [v for v in verdicts if v[0] == "LOOP"]
         if bad:
